@@ -313,6 +313,7 @@ def classify(c, res):
         if st != "FAILURE":
             # UNKNOWN: CBMC could not decide it because it is only reachable past a failed *fatal* check
             c.unknown = getattr(c, "unknown", 0) + 1
+            c.unknown_desc = getattr(c, "unknown_desc", []) + ["%s @ %s" % (d[:60], _loc(r))]
             continue
         if UB_FORMATION.match(d) and not c.get("strict_pointer_formation", False):
             ub.append({"property": r.get("property"), "description": d,
@@ -434,6 +435,10 @@ def run_case_(c, tier, keep=False):
         if not keep:
             shutil.rmtree(wd, ignore_errors=True)
         return c
+    if cstat is None or any(("Out of memory" in m or "bad_alloc" in m or "Try reducing the problem size" in m) for m in msgs):
+        c.status, c.detail = "undecided", "cbmc ended without a verdict after %d property results (memory cap %d GB or crash)" % (len(res), memcap // (1024 * 1024))
+        c.wall_s = time.time() - t0
+        return c
     wit_seen, wit_ok, fails, ub, unwind = classify(c, res)
     c.ub_formation = ub
     c.witness_ok = wit_seen > 0 and wit_ok == wit_seen
@@ -451,11 +456,11 @@ def run_case_(c, tier, keep=False):
         real.append(r)
     if getattr(c, "unknown", 0) and not real and not unwind:
         c.status = "error"
-        c.detail = "%d properties UNKNOWN (only reachable past a failed fatal check filed as formal UB: %s)" % (c.unknown, "; ".join(u["description"][:60] for u in ub[:3]))
+        c.detail = "%d properties UNKNOWN (undecided by CBMC, e.g. only reachable past a failed fatal check): %s" % (c.unknown, "; ".join(getattr(c, "unknown_desc", [])[:4]))
     elif unwind and not c.get("unwind_is_property", False):
         c.status = "error"
         c.detail = "unwinding bound too small: " + "; ".join(sorted(set(r.get("property", "?") for r in unwind))[:6])
-    elif not c.witness_ok:
+    elif not c.witness_ok and not real:
         c.status = "error"
         c.detail = "VACUOUS: witness reachable=%d/%d" % (wit_ok, wit_seen)
     elif real or unwind:
@@ -722,9 +727,12 @@ def check(pid, tier, only=None, jobs=None, keep=False):
     ok = [c for c in done if c.status == "ok"]
     for c in und:
         print("UNDECIDED property=%s %s (%s)" % (pid, c.id, c.detail))
+    seen_k = set()
     for c in known:
         for k in c.known:
-            print("KNOWN-FINDING: property=%s %s [%s]" % (pid, k, c.id))
+            if k not in seen_k:
+                seen_k.add(k)
+                print("KNOWN-FINDING: property=%s %s [first seen at %s; %d obligations]" % (pid, k, c.id, sum(1 for x in known if k in x.known)))
     for c in viol:
         print("VIOLATION property=%s replay=%s" % (pid, c.replay))
         for f in c.failed[:5]:
